@@ -130,6 +130,10 @@ func filterColumns(row *ovsdb.Row, columns map[string]bool) *ovsdb.Row {
 	if row == nil {
 		return nil
 	}
+	if columns == nil {
+		// every column is monitored
+		return row
+	}
 	new := make(ovsdb.Row, len(*row))
 	for k, v := range *row {
 		if _, ok := columns[k]; ok {
@@ -137,6 +141,27 @@ func filterColumns(row *ovsdb.Row, columns map[string]bool) *ovsdb.Row {
 		}
 	}
 	return &new
+}
+
+// tableRequest returns what is monitored of a table: the set of columns (nil
+// when the request names none: RFC 7047 then monitors all of them) and the
+// select flags (all true when the request has no select member). A table
+// without a request is watched completely when no table was requested.
+func (m *monitor) tableRequest(table string) (map[string]bool, *ovsdb.MonitorSelect) {
+	var cols map[string]bool
+	sel := ovsdb.NewDefaultMonitorSelect()
+	if req := m.request[table]; req != nil {
+		if len(req.Columns) > 0 {
+			cols = map[string]bool{"_uuid": true}
+			for _, c := range req.Columns {
+				cols[c] = true
+			}
+		}
+		if req.Select != nil {
+			sel = req.Select
+		}
+	}
+	return cols, sel
 }
 
 func (m *monitor) filter(update database.Update) ovsdb.TableUpdates {
@@ -150,23 +175,16 @@ func (m *monitor) filter(update database.Update) ovsdb.TableUpdates {
 			continue
 		}
 		tu := ovsdb.TableUpdate{}
-		cols := make(map[string]bool)
-		cols["_uuid"] = true
-		for _, c := range m.request[table].Columns {
-			cols[c] = true
-		}
+		cols, sel := m.tableRequest(table)
 		_ = update.ForEachRowUpdate(table, func(uuid string, ru2 ovsdb.RowUpdate2) error {
 			ru := &ovsdb.RowUpdate{}
 			ru.FromRowUpdate2(ru2)
 			switch {
-			case ru.Insert() && m.request[table].Select.Insert():
+			case ru.Insert() && sel.Insert():
 				fallthrough
-			case ru.Modify() && m.request[table].Select.Modify():
+			case ru.Modify() && sel.Modify():
 				fallthrough
-			case ru.Delete() && m.request[table].Select.Delete():
-				if len(cols) == 0 {
-					return nil
-				}
+			case ru.Delete() && sel.Delete():
 				ru.New = filterColumns(ru.New, cols)
 				ru.Old = filterColumns(ru.Old, cols)
 				if ru.Modify() {
@@ -192,6 +210,13 @@ func (m *monitor) completeRow(table string, row *ovsdb.Row, columns map[string]b
 	tableSchema := m.schema.Table(table)
 	if tableSchema == nil {
 		return row
+	}
+	if columns == nil {
+		// every column is monitored
+		columns = make(map[string]bool, len(tableSchema.Columns))
+		for name := range tableSchema.Columns {
+			columns[name] = true
+		}
 	}
 	for name := range columns {
 		if _, ok := (*row)[name]; ok || name == "_uuid" {
@@ -222,21 +247,14 @@ func (m *monitor) filter2(update database.Update) ovsdb.TableUpdates2 {
 			continue
 		}
 		tu2 := ovsdb.TableUpdate2{}
-		cols := make(map[string]bool)
-		cols["_uuid"] = true
-		for _, c := range m.request[table].Columns {
-			cols[c] = true
-		}
+		cols, sel := m.tableRequest(table)
 		_ = update.ForEachRowUpdate(table, func(uuid string, ru2 ovsdb.RowUpdate2) error {
 			switch {
-			case ru2.Insert != nil && m.request[table].Select.Insert():
+			case ru2.Insert != nil && sel.Insert():
 				fallthrough
-			case ru2.Modify != nil && m.request[table].Select.Modify():
+			case ru2.Modify != nil && sel.Modify():
 				fallthrough
-			case ru2.Delete != nil && m.request[table].Select.Delete():
-				if len(cols) == 0 {
-					return nil
-				}
+			case ru2.Delete != nil && sel.Delete():
 				ru2.Insert = filterColumns(ru2.Insert, cols)
 				ru2.Modify = filterColumns(ru2.Modify, cols)
 				ru2.Delete = filterColumns(ru2.Delete, cols)
